@@ -2094,9 +2094,30 @@ func c18R3read(c *Check, fn *ssa.Function, fns []*ssa.Function, r3 string) (flag
 	}
 	c.OK(key+":delegates-after-replay", r3, p.InstrPos(under[0]))
 	// delivery: bs[0] = recv.<byte field>
-	var deliver []*ssa.Store
+	var deliver []ssa.Instruction
+	var copyDeliver []*ssa.Call
 	wrongVal := ""
 	allInstrs(fn, func(in ssa.Instruction) {
+		// delivery through copy(p, []byte{<byte field>}): at most one byte, none for an empty p
+		if call, ok := in.(*ssa.Call); ok && isBuiltinCall(call, "copy") && len(call.Call.Args) == 2 {
+			dst := resolve(call.Call.Args[0])
+			if sl, ok := dst.(*ssa.Slice); ok && (sl.Low == nil || isConstInt(sl.Low, 0)) {
+				dst = resolve(sl.X)
+			}
+			if dst == bs {
+				for d := range deps(call.Call.Args[1], depOpts{}) {
+					ap := accessPath(d)
+					if ap.Root == recv && len(ap.Fields) == 1 {
+						if b, ok := ap.Fields[0].Type().Underlying().(*types.Basic); ok && b.Kind() == types.Uint8 {
+							byteF = ap.Fields[0]
+							deliver = append(deliver, call)
+							copyDeliver = append(copyDeliver, call)
+						}
+					}
+				}
+			}
+			return
+		}
 		s, ok := in.(*ssa.Store)
 		if !ok {
 			return
@@ -2131,7 +2152,16 @@ func c18R3read(c *Check, fn *ssa.Function, fns []*ssa.Function, r3 string) (flag
 	lenGE1 := func(cond ssa.Value, pol bool) bool {
 		lo, _, ok := c18cmpRange(cond, pol, func(x ssa.Value) bool {
 			call, ok := x.(*ssa.Call)
-			return ok && isBuiltinCall(call, "len") && resolve(call.Call.Args[0]) == bs
+			if ok && isBuiltinCall(call, "len") && resolve(call.Call.Args[0]) == bs {
+				return true
+			}
+			// the count returned by the delivering copy is as good as len(p)
+			for _, cd := range copyDeliver {
+				if x == ssa.Value(cd) {
+					return true
+				}
+			}
+			return false
 		})
 		return ok && lo >= 1
 	}
